@@ -15,6 +15,7 @@ func init() {
 		"(R2) distinct logs: the returned set is built only by ranging over the per-log result map and keeps entries that carry an SCT, labelled with their own key; "+
 		"(R3) success ⇔ every group complete: GetSCTs presets every group to 'not complete' before listening for events, records exactly the reported outcome, and returns completenessError over that map on both exits; completenessError is nil only if no entry is false; a race reports Success only from groupComplete(); groupComplete ⇔ needs ≤ 0; needs start at MinInclusions and are decremented only in setResult on the branch that has an SCT; "+
 		"(R4) who is contacted: the policy input of addSomeChain comes only from usableLl.Compatible(...) (pending logs only from pendingQualifiedLl), Compatible = TemporallyCompatible then RootCompatible, and a certificate / precertificate mismatch with the endpoint is an error; "+
+		"(R9) the log list handed to the policy is, on every path, the result of usableLl.Compatible(leaf, nil | last certificate, recorded roots) computed in this call from the chain parsed from this call's input and handed on with it — never a cached, remembered or unfiltered list; GetSCTs is started only from addSomeChain with the groups of a LogsByGroup call made there; "+
 		"(R5) policy group minima: Chrome = Google-operated ≥ 1, non-Google ≥ 1 plus the lifetime-dependent base group; Apple = base group; lifetime thresholds <15 → 2, ≤27 → 3, ≤39 → 4, else 5; setMinInclusions refuses a group that is too small. "+
 		"NOT covered: the outcomes of the races themselves, liveness ('does report success'), termination, fairness of the weighted random order.",
 		runC17)
@@ -183,6 +184,10 @@ func runC17(r *Run) {
 
 	r.Rule("C17.R7")
 	c17RootsUnknownOnFailure(r)
+
+	// R9: the list the policy sees is computed afresh from this certificate on every path
+	r.Rule("C17.R9")
+	c17FreshSelection(r)
 	// goroutines per log / per group must not share result variables (rule set C12.R10)
 	r.Shared("C17.R8", func() {
 		r.Rule("C12.R10")
@@ -354,29 +359,28 @@ func c17Completeness(r *Run) {
 		if c17RaceEndsOnDuplicate(r) {
 			r.Check("GetSCTs:final-verdict-from-state", final == 1, r.FnPos(fn), fmt.Sprintf("a race may report before a log asked by another race has answered; %d re-evaluations of the groups on the final state before the normal exit", final))
 		}
-		// one race per group, each reporting its own result
-		if clo := r.Fn("submission.GetSCTs$1"); clo != nil {
-			if c := r.OneCall(clo, "GetSCTs:race", "submission.groupRace"); c != nil {
-				// the race's group and shared state are the parameters of these types, wherever they stand
-				si, gi := c17RaceParams(r)
-				if gi >= 0 {
-					r.ExpectArg(c, "GetSCTs:race.group", gi, "p0")
-				} else {
-					r.Fail("GetSCTs:race.group", r.Where(c), "undecided: groupRace has no single *ctpolicy.LogGroupInfo parameter")
-				}
-				if si >= 0 {
-					r.ExpectArg(c, "GetSCTs:race.state", si, "*^new:*submission.safeSubmissionState#0")
-				} else {
-					r.Fail("GetSCTs:race.state", r.Where(c), "undecided: groupRace has no single *safeSubmissionState parameter")
-				}
-				snd := false
-				eachInstr(clo, func(in ssa.Instruction) {
-					if s, ok := in.(*ssa.Send); ok && glob("submission.groupRace(*)", r.D.D(s.X)) {
-						snd = true
-					}
-				})
-				r.Check("GetSCTs:race.reports", snd, r.Where(c), "each race's groupState is sent to the event channel")
+		// one race per group, each reporting its own result; the literal that runs the race is found by
+		// what it does (it is the caller of groupRace), not by its index among the literals
+		if clo, c := c17RaceLiteral(r, fn); clo != nil {
+			// the race's group and shared state are the parameters of these types, wherever they stand
+			si, gi := c17RaceParams(r)
+			if gi >= 0 {
+				c17RaceOwnGroup(r, fn, clo, c, gi)
+			} else {
+				r.Fail("GetSCTs:race.group", r.Where(c), "undecided: groupRace has no single *ctpolicy.LogGroupInfo parameter")
 			}
+			if si >= 0 {
+				r.ExpectArg(c, "GetSCTs:race.state", si, "*^new:*submission.safeSubmissionState#0")
+			} else {
+				r.Fail("GetSCTs:race.state", r.Where(c), "undecided: groupRace has no single *safeSubmissionState parameter")
+			}
+			snd := false
+			eachInstr(clo, func(in ssa.Instruction) {
+				if s, ok := in.(*ssa.Send); ok && glob("submission.groupRace(*)", r.D.D(s.X)) {
+					snd = true
+				}
+			})
+			r.Check("GetSCTs:race.reports", snd, r.Where(c), "each race's groupState is sent to the event channel")
 		}
 	}
 	if fn := r.Fn("submission.completenessError"); fn != nil {
@@ -530,17 +534,16 @@ func c17Contacted(r *Run) {
 	}
 	if clo := r.Fn("(*submission.Distributor).addSomeChain$1"); clo != nil {
 		for _, ret := range Returns(clo) {
-			if len(ret.Results) != 3 || errKind(ret.Results[2]) != "nil" {
+			// (a function with a defer spills its results: look at what the return statement stored)
+			if len(ret.Results) != 3 || ret.Block().Comment == "recover" || errKind(RetVals(ret)[2]) != "nil" {
 				continue
 			}
 			d := r.D.D(ret.Results[0])
-			if ret.Block().Comment == "recover" {
-				continue
-			}
 			r.Check("compatibleLogs:source", glob("*(*loglist3.LogList).Compatible(*.usableLl, *", d) || glob("*new:loglist3.LogList#*", d), r.Where(ret), "compatible logs ← "+d)
 		}
 		cs := CallsTo(clo, "(*loglist3.LogList).Compatible")
-		r.Check("compatibleLogs:calls", len(cs) == 3, r.FnPos(clo), fmt.Sprintf("%d Compatible() calls", len(cs)))
+		// (how many there are is a matter of code shape; C17.R9 examines every one whose result can reach the policy)
+		r.Check("compatibleLogs:calls", len(cs) >= 1, r.FnPos(clo), fmt.Sprintf("%d Compatible() calls", len(cs)))
 		for _, c := range cs {
 			r.Check("compatibleLogs:usable-list", glob("*.usableLl", r.D.D(CallArgs(c)[0])), r.Where(c), "Compatible() is asked of the usable log list: "+r.D.D(CallArgs(c)[0]))
 		}
@@ -645,16 +648,8 @@ func c17Policy(r *Run) {
 			}
 		})
 		r.Check("Chrome:three-groups", n == 3, r.FnPos(fn), fmt.Sprintf("%d groups returned (Google, non-Google, base)", n))
-		// Google vs non-Google predicates
-		g, ng := r.Fn("(ctpolicy.ChromeCTPolicy).LogsByGroup$1"), r.Fn("(ctpolicy.ChromeCTPolicy).LogsByGroup$2")
-		if g != nil && ng != nil {
-			for _, ret := range Returns(g) {
-				r.Check("Chrome:google-predicate", r.D.D(ret.Results[0]) == "(*loglist3.Operator).GoogleOperated(p0)", r.Where(ret), "Google group selects "+r.D.D(ret.Results[0]))
-			}
-			for _, ret := range Returns(ng) {
-				r.Check("Chrome:non-google-predicate", r.D.D(ret.Results[0]) == "!(*loglist3.Operator).GoogleOperated(p0)", r.Where(ret), "non-Google group selects "+r.D.D(ret.Results[0]))
-			}
-		}
+		// Google vs non-Google predicates: found by what they do, not by their index among the literals
+		c17OperatorGroups(r, fn)
 	}
 	if fn := r.Fn("(ctpolicy.AppleCTPolicy).LogsByGroup"); fn != nil {
 		thresholds(fn, "Apple")
